@@ -607,12 +607,24 @@ def extra(ctx, known):
 
 
 MANIFEST = {
-    "text": "Coq theorems about an executable Gallina model of rlib_rand (integer ranges parametric in width and signedness with "
-            "explicit wrapping, the guarded f64 range on SpecFloat(53,1024), the 64-bit LCG with its output mixing, shuffle over an "
-            "arbitrary raw source); theorems listed in evidence. The model is tied to the code on every run: the executor calls "
-            "gen_from_u64 / next_raw / next / shuffle from /repo (debug and release builds) on boundary-directed inputs and Coq "
-            "proves model = implementation and implementation |= specification on every case. PARTIAL: near-equal frequency of "
-            "permutations and aperiodicity are statistical; finite reachability is proved, the rest is measured by a search.",
+    "text": "Coq theorems (18 pinned; the integer, LCG and shuffle ones closed under the global context, the real-number "
+            "float ones with Flocq's standard-library axioms) about an executable Gallina model of rlib_rand (integer "
+            "ranges parametric in width and signedness with explicit wrapping, the guarded f64 range on "
+            "SpecFloat(53,1024), the 64-bit LCG with its output mixing, shuffle over an arbitrary raw source): "
+            "c14_range_in_bounds (every range form, every width/signedness, EVERY raw word: the draw is inside the range, "
+            "MIN..=MAX included), c14_range_reachable (each value of a range is hit by an explicit raw), "
+            "c14_full_range_is_truncation, c14_empty_range_panics, c14_stream_deterministic / c14_seed_injective / "
+            "c14_state_step_bijective / c14_output_bijective (streams are a function of the seed; copies agree), "
+            "c14_shuffle_permutation and c14_shuffle_total (any raw source: the result is a Permutation, no index leaves "
+            "the slice), c14_shuffle_reaches_all_partial and c14_fairness_partial (lengths <= 6: every order is produced "
+            "by some raw script resp. by an explicit seed of the real generator), c14_float_in_range / "
+            "c14_float_in_range_real / c14_float_unit_in_0_1 / c14_float_empty_panics (start <= x < end for every finite "
+            "start < end and every raw word, in SFcompare and in R), c14_old_low_bits_periodic (the repaired defect, "
+            "proved: the old output had period dividing 2^k in its low k bits). The model is tied to the code on every "
+            "run: the executor calls gen_from_u64 / next_raw / next / shuffle from /repo (debug and release builds) on "
+            "boundary-directed inputs and Coq proves model = implementation and implementation |= specification on every "
+            "case. PARTIAL: near-equal frequency of permutations and aperiodicity are statistical; finite reachability is "
+            "proved, the rest is measured by a search (chi-square over seeds, period detection).",
     "level_note": "Trusted: Coq kernel + vm_compute; the Rust executor and the Python case printer; theorems are about the model, "
                   "the correspondence is sampled (exhaustive over 8-bit range bounds in the thorough tier).",
     "technique": "Coq proof over Gallina model + vm_compute correspondence batches against the Rust crate",
